@@ -187,7 +187,7 @@ PROPS["C09"] = dict(
          "calibrated oracles with stated preconditions: concealed peak bounded by the recent level, decay after >= 1 s of loss (decay-probe sessions), FEC error well below PLC error on isolated losses with LBRR (FEC-probe sessions), "
          "reconvergence to R within 250 ms after faults stop for CELT-only streams (SILK / hybrid reconvergence is recorded as a probe only); non-trivial = at least one loss fired and >=5 calls succeeded; distinct = signature over the (TOC config, FEC / PLC, next-arrived) sequence of the lost packets",
     fault_keys=["f_drop", "f_burst", "f_late", "f_dup_discarded", "f_after_transition"],
-    probes_required=["rx_lost", "rx_received", "plc_calls", "plc_in_pieces", "fec_with_lbrr", "fec_without_lbrr", "fec_larger_frame_size", "bounded_checked", "decay_checked", "fec_gain_checked", "fec_frame_level_checked", "fec_frame_level_checked_first_lbrr_frame_not_first", "recovery_checked_celt", "recovery_checked_flushed", "odd_frame_size_checked", "mode_silk", "mode_hybrid", "mode_celt", "window_patterns_played", "fec_vs_plc_exact_checked"],
+    probes_required=["rx_lost", "rx_received", "plc_calls", "plc_in_pieces", "fec_with_lbrr", "fec_without_lbrr", "fec_larger_frame_size", "bounded_checked", "decay_checked", "fec_gain_checked", "fec_frame_level_checked", "fec_frame_level_checked_first_lbrr_frame_not_first", "recovery_checked_celt", "recovery_checked_flushed", "odd_frame_size_checked", "mode_silk", "mode_hybrid", "mode_celt", "window_patterns_played", "fec_vs_plc_exact_checked", "plc_in_pieces_of_7_5_12_5_15_17_5_ms", "fec_larger_frame_size_not_multiple_of_10ms"],
     real=REAL_CODEC, simulated=SIM_COMMON + ["lossy link (loss patterns attached per packet)", "jitter buffer / play-out policy", "three receiver replicas (faulty, concealment-only, loss-free twin)"],
     assumptions=ASSUME_COMMON + ["the numeric clauses (bounded, decay, FEC gain, recovery) are calibrated with preconditions (calib/thresholds.json C09.*): unconditioned they are not true of a healthy IIR decoder",
                                  "perceptual quality of concealment is not judged"],
